@@ -174,6 +174,16 @@ class Table:
                 block(s.body, dict(env), conds + [(test, True)], lambda e, c: block(rest, e, c, cont))
                 block(s.orelse, dict(env), conds + [(test, False)], lambda e, c: block(rest, e, c, cont))
                 return
+            if isinstance(s, (ast.Assign, ast.AnnAssign)) and isinstance(s.value, ast.IfExp) and count[0] < MAX_PATHS // 2:
+                # `x = A if c else B` is the same decision as `if c: x = A` / `else: x = B`
+                def mk(v):
+                    if isinstance(s, ast.Assign):
+                        return ast.Assign(targets=s.targets, value=v, lineno=s.lineno, col_offset=s.col_offset)
+                    return ast.AnnAssign(target=s.target, annotation=s.annotation, value=v, simple=s.simple, lineno=s.lineno, col_offset=s.col_offset)
+                synth = ast.If(test=s.value.test, body=[mk(s.value.body)], orelse=[mk(s.value.orelse)], lineno=s.lineno, col_offset=s.col_offset)
+                self._synthetic.append(synth)
+                block([synth] + rest, env, conds, cont)
+                return
             if isinstance(s, ast.Assign):
                 env = dict(env)
                 val = self.canon(s.value, fi, env)
